@@ -4,9 +4,13 @@ import collections
 import hashlib
 import json
 import os
+import signal
 import traceback
 
 from . import common
+
+
+UNIT_BOX = 60       # seconds for one driven call of the implementation (normal: milliseconds)
 
 
 class Unit:
@@ -51,9 +55,15 @@ def run_unit(rep, unit, cases, scratch, oracle_on_all=True):
             cases = json.load(fh) + list(cases)
     results, terms = [], []
     impl_errors = 0
+    from .timebox import Hang, TimeBox, time_box
     for c in cases:
         try:
-            r = unit.impl(c)
+            with time_box(UNIT_BOX):
+                r = unit.impl(c)
+        except TimeBox:
+            if signal.getitimer(signal.ITIMER_REAL)[0] > 0:
+                raise
+            raise Hang("correspondence unit %s" % unit.name, c, UNIT_BOX)
         except Exception as e:      # the driver itself must not die; an escaping exception is a result
             r = {"exc": type(e).__name__, "msg": str(e)[:200], "tb": traceback.format_exc()[-800:]}
             impl_errors += 1
